@@ -76,34 +76,37 @@ Proof.
 Qed.
 
 (* ---- play ---- *)
-Definition nonneg (l : list Q) : Prop := Forall (fun x => 0 <= x) l.
+Open Scope Z_scope.
+Definition nonneg (l : list Z) : Prop := Forall (fun x => 0 <= x) l.
 
 (* never before the scheduled time: every message is yielded at clock >= start + (its cumulative time) *)
 Theorem play_not_early mm start : forall ms clock input_time k eps holds, nonneg eps -> nonneg holds ->
-  Forall2 (fun yc s => snd yc >= start + s) (play mm start clock input_time k ms eps holds)
+  Forall2 (fun yc s => start + s <= snd yc) (play mm start clock input_time k ms eps holds)
           (map snd (filter (fun p => negb (q_meta (fst p) && negb mm)) (combine ms (sched input_time ms)))).
 Proof.
   induction ms as [|m r IH]; intros clock input_time k eps holds He Hh; cbn [play sched combine filter map]; [constructor|].
   set (it := input_time + q_delta m). set (dur := it - (clock - start)).
-  assert (He' : nonneg (if Qlt_le_dec 0 dur then tl eps else eps)) by (destruct (Qlt_le_dec 0 dur); [destruct eps; [constructor|now apply Forall_inv_tail in He]|assumption]).
-  assert (Hhd : 0 <= hd 0 eps) by (destruct eps; [cbn; lra|now apply Forall_inv in He]).
+  assert (He' : nonneg (if 0 <? dur then tl eps else eps)) by (destruct (0 <? dur); [destruct eps; [constructor|now apply Forall_inv_tail in He]|assumption]).
+  assert (Hhd : 0 <= hd 0 eps) by (destruct eps; [cbn; lia|now apply Forall_inv in He]).
   cbn [fst]. destruct (q_meta m && negb mm); cbn [negb].
   - apply IH; assumption.
   - cbn [map snd]. constructor; [|apply IH; [assumption|destruct holds; [constructor|now apply Forall_inv_tail in Hh]]].
-    cbn [snd]. destruct (Qlt_le_dec 0 dur) as [Hd|Hd]; unfold dur, it in *; lra.
+    cbn [snd]. destruct (0 <? dur) eqn:Hd; unfold dur, it in *; lia.
 Qed.
 
-(* no accumulated drift: with exact sleeps a message is yielded at its scheduled time if the consumer came back early enough,
-   and at once (without sleeping) otherwise; the next step starts from that clock plus the consumer's hold *)
+(* no accumulated drift: with exact sleeps a message is yielded at max(its scheduled time, the time the consumer came back);
+   the next step starts from that clock plus the consumer's hold *)
 Theorem play_no_drift mm start m r clock input_time k holds :
   q_meta m && negb mm = false ->
-  exists c rest, play mm start clock input_time k (m :: r) [] holds = (k, c) :: rest /\
-    (clock - start <= input_time + q_delta m -> c == start + (input_time + q_delta m)) /\
-    (input_time + q_delta m <= clock - start -> c == clock) /\
-    rest = play mm start (c + hd 0 holds) (input_time + q_delta m) (S k) r [] (tl holds).
+  play mm start clock input_time k (m :: r) [] holds =
+    (k, Z.max (start + (input_time + q_delta m)) clock) ::
+    play mm start (Z.max (start + (input_time + q_delta m)) clock + hd 0 holds) (input_time + q_delta m) (S k) r [] (tl holds).
 Proof.
-  intros Hk. cbn [play]. rewrite Hk. eexists; eexists; split; [reflexivity|].
-  destruct (Qlt_le_dec 0 (input_time + q_delta m - (clock - start))) as [H|H]; cbn [hd tl]; repeat split; intros; try lra; reflexivity.
+  intros Hk. cbn [play]. rewrite Hk. cbn [hd tl].
+  destruct (0 <? input_time + q_delta m - (clock - start)) eqn:H.
+  - assert (E : clock + (input_time + q_delta m - (clock - start)) + 0 = Z.max (start + (input_time + q_delta m)) clock) by lia.
+    rewrite E. reflexivity.
+  - assert (E : Z.max (start + (input_time + q_delta m)) clock = clock) by lia. rewrite E. reflexivity.
 Qed.
 
 (* play yields exactly the messages of iteration, meta messages only on request, in order *)
